@@ -314,9 +314,10 @@ func (c *mcase) newObj(dec bool, iv []byte) (*obj, error) {
 // ---------------------------------------------------------------- running the implementation on guarded buffers
 
 const (
-	margin = 48 // canary bytes on the accessible side of a guarded buffer
-	patDst = 0x5c
-	patCan = 0xa5
+	margin   = 48 // canary bytes on the accessible side of a guarded buffer
+	dstExtra = 40 // spare room behind len(src) in a "dst longer than src" destination
+	patDst   = 0x5c
+	patCan   = 0xa5
 )
 
 type bufOpt struct{ inPlace, gStart, dstLong bool }
@@ -393,8 +394,14 @@ func (c *mcase) run(dec bool, iv, msg []byte, parts []int, o bufOpt) ([]byte, er
 	copy(src, msg)
 	dst, dcan := src, scan
 	if !o.inPlace {
+		// with dstLong the destination has room beyond len(src), which the
+		// interfaces allow and promise not to touch
+		room := n
+		if o.dstLong {
+			room = n + dstExtra
+		}
 		var gd freer
-		gd, dst, dcan = guarded(n, o.gStart, 1)
+		gd, dst, dcan = guarded(room, o.gStart, 1)
 		defer gd.Free()
 		for i := range dst {
 			dst[i] = patDst
@@ -423,7 +430,7 @@ func (c *mcase) run(dec bool, iv, msg []byte, parts []int, o bufOpt) ([]byte, er
 				return nil, fmt.Errorf("%s, in place: bytes after the slice handed over were modified", where)
 			}
 		} else {
-			for k := off; k < n; k++ {
+			for k := off; k < len(dst); k++ {
 				if dst[k] != patDst {
 					return nil, fmt.Errorf("%s: dst byte %d beyond dst[:len(src)] was written (dst len %d)", where, k, len(d))
 				}
@@ -647,6 +654,15 @@ func checkCase(c mcase, r *h.Rec) error {
 			c.Mode, c.Dec, pathNames[c.Path], c.Conc, c.Trim, k1, k2, iv, c.Len, c.Parts, c.InPlace, c.GStart, c.DstLong, h.Hex(msg))
 	}
 	opt := bufOpt{c.InPlace, c.GStart, c.DstLong}
+	// consult the list of known findings at most once per case, so that the
+	// evidence counts cases, not oracle calls
+	kfAsked, kfOpen := false, false
+	known := func() bool {
+		if !kfAsked {
+			kfAsked, kfOpen = true, r.Known(kfHCTR)
+		}
+		return kfOpen
+	}
 
 	// compare against the definition; for HCTR inputs of the known-finding
 	// class the documented wrong behaviour is matched by the second model
@@ -655,7 +671,7 @@ func checkCase(c mcase, r *h.Rec) error {
 		if bytes.Equal(got, want) {
 			return false, nil
 		}
-		if c.Mode == "hctr" && hctrKFClass(len(in)) && bytes.Equal(got, c.model(c.Dec, iv, in, true)) && r.Known(kfHCTR) {
+		if c.Mode == "hctr" && hctrKFClass(len(in)) && bytes.Equal(got, c.model(c.Dec, iv, in, true)) && known() {
 			return true, nil
 		}
 		d := 0
@@ -681,12 +697,18 @@ func checkCase(c mcase, r *h.Rec) error {
 	}
 
 	// Decrypt(Encrypt(m)) == m with a fresh object, other buffer arrangement
-	back, err := c.run(!c.Dec && hasDirection(c.Mode), iv, got, nil, bufOpt{inPlace: !c.InPlace, gStart: !c.GStart})
+	invDec := !c.Dec && hasDirection(c.Mode)
+	back, err := c.run(invDec, iv, got, nil, bufOpt{inPlace: !c.InPlace, gStart: !c.GStart})
 	if err != nil {
-		return fmt.Errorf("inverse direction: %v [%s]", err, desc())
+		return fmt.Errorf("inverse direction (dec=%v inplace=%v guardstart=%v): %v [%s]", invDec, !c.InPlace, !c.GStart, err, desc())
 	}
 	if !bytes.Equal(back, msg) {
-		return fmt.Errorf("inverse direction on a fresh object does not give the input back: %s [%s]", h.Hex(back), desc())
+		d := 0
+		for d < len(back) && back[d] == msg[d] {
+			d++
+		}
+		return fmt.Errorf("the inverse direction (fresh object, dec=%v inplace=%v guardstart=%v, one call) applied to the output %s does not give the input back, first difference at byte %d: %s [%s]",
+			invDec, !c.InPlace, !c.GStart, h.Hex(got), d, h.Hex(back[d:]), desc())
 	}
 
 	// several calls on one object == one call (model-free form of the split relation)
@@ -697,6 +719,24 @@ func checkCase(c mcase, r *h.Rec) error {
 		}
 		if !bytes.Equal(one, got) {
 			return fmt.Errorf("result of calls %v (inplace=%v) differs from one call (inplace=%v): %s vs %s [%s]", c.Parts, c.InPlace, !c.InPlace, h.Hex(got), h.Hex(one), desc())
+		}
+	}
+
+	// an HCTR object keeps no state between calls: the same object gives the
+	// same answer again, also after having processed something else
+	if c.Mode == "hctr" {
+		ob, err := c.newObj(c.Dec, iv)
+		if err != nil {
+			return err
+		}
+		out := make([]byte, len(msg))
+		ob.call(out, msg)
+		other := gen.Fill(c.Seed+11, bs+int(c.Seed%40))
+		ob.call(make([]byte, len(other)), other)
+		out2 := make([]byte, len(msg))
+		ob.call(out2, msg)
+		if !bytes.Equal(out, got) || !bytes.Equal(out2, got) {
+			return fmt.Errorf("reusing one HCTR object changes its answer: %s / %s vs %s [%s]", h.Hex(out), h.Hex(out2), h.Hex(got), desc())
 		}
 	}
 
@@ -736,7 +776,7 @@ func checkCase(c mcase, r *h.Rec) error {
 			// only waived for tweak bits the bug-compatible model itself ignores
 			waived := false
 			if c.Mode == "hctr" && hctrKFClass(c.Len) &&
-				bytes.Equal(c.model(c.Dec, iv, msg, true), c.model(c.Dec, iv2, msg, true)) && r.Known(kfHCTR) {
+				bytes.Equal(c.model(c.Dec, iv, msg, true), c.model(c.Dec, iv2, msg, true)) && known() {
 				waived = true
 				r.Label("hctr tweak bit ignored (known finding)")
 			}
@@ -1015,16 +1055,16 @@ func family(t *testing.T, mode string, quick, thorough int) {
 	h.Prop(t, h.P{Name: mode + "-rapid", Quick: quick, Thorough: thorough, Journal: true}, genCase(mode), checkCase)
 }
 
-func TestC03_ECB(t *testing.T)    { family(t, "ecb", 2500, 50000) }
-func TestC03_CBC(t *testing.T)    { family(t, "cbc", 2500, 50000) }
-func TestC03_CFB(t *testing.T)    { family(t, "cfb", 2000, 40000) }
-func TestC03_OFB(t *testing.T)    { family(t, "ofb", 2000, 40000) }
-func TestC03_CTR(t *testing.T)    { family(t, "ctr", 3000, 60000) }
-func TestC03_BC(t *testing.T)     { family(t, "bc", 2000, 40000) }
-func TestC03_OFBNLF(t *testing.T) { family(t, "ofbnlf", 1000, 20000) }
-func TestC03_XTS(t *testing.T)    { family(t, "xts", 2500, 50000) }
-func TestC03_GBXTS(t *testing.T)  { family(t, "gbxts", 2500, 50000) }
-func TestC03_HCTR(t *testing.T)   { family(t, "hctr", 1500, 30000) }
+func TestC03_ECB(t *testing.T)    { family(t, "ecb", 6000, 50000) }
+func TestC03_CBC(t *testing.T)    { family(t, "cbc", 8000, 60000) }
+func TestC03_CFB(t *testing.T)    { family(t, "cfb", 6000, 40000) }
+func TestC03_OFB(t *testing.T)    { family(t, "ofb", 5000, 40000) }
+func TestC03_CTR(t *testing.T)    { family(t, "ctr", 10000, 80000) }
+func TestC03_BC(t *testing.T)     { family(t, "bc", 6000, 40000) }
+func TestC03_OFBNLF(t *testing.T) { family(t, "ofbnlf", 3000, 20000) }
+func TestC03_XTS(t *testing.T)    { family(t, "xts", 8000, 60000) }
+func TestC03_GBXTS(t *testing.T)  { family(t, "gbxts", 8000, 60000) }
+func TestC03_HCTR(t *testing.T)   { family(t, "hctr", 3000, 30000) }
 
 // ---------------------------------------------------------------- documented panics
 
